@@ -114,6 +114,7 @@ def run(ctx: core.Ctx) -> int:
             ctx.oblige("TABLES", f"{F}:{q('Create')}", f"Create[{k.value!r}] = {ast.unparse(v)}", ast.unparse(v) == k.value, file=F, func=q("Create"),
                        construct=f"Create {k.value}", msg=f"Create passes {ast.unparse(v)} as '{k.value}'")
     set_params_rule(ctx, cls, ctx.parse(F))
+    config_verbatim(ctx, "SET-PARAMS")
     input_pure(ctx, mod)
     # ---------------------------------------------------------------- VECTOR (E2 iteration inventory of writer and reader)
     sc = scenarios.PyEKF(ctx, prog, run=())
@@ -353,6 +354,45 @@ def run(ctx: core.Ctx) -> int:
                        f"score and fit) fails with KeyError instead of MinimizationFailure")
     return core.finish(ctx, explanation="table agreement, branch-structure and def-use rules on SklearnEKFAdapter; E2 iteration inventory for the "
                                         "scoring-vector writer/reader", **META)
+
+
+def config_verbatim(ctx: core.Ctx, rule: str):
+    """CONFIG-FIELDS: python.Config stores the values it is given.  It is a dataclass whose fields are written by the generated __init__ only: no
+    hand-written __init__ / __new__ / __setattr__ / __getattribute__ / __getattr__, no property shadowing a field, and no method (notably
+    __post_init__) that writes a field through object.__setattr__ / setattr / __dict__.  A normalising constructor makes `set_params(x=v)` store
+    something other than v, and makes a grid candidate reach the filter as a different value.  (A __post_init__ that only validates is fine.)"""
+    mod = ctx.parse(F)
+    cfg = core.find_class(mod, "Config")
+    if cfg is None:
+        ctx.error(f"anchor missing: {F}:Config")
+        return
+    is_dc = any("dataclass" in ast.unparse(d) for d in cfg.decorator_list)
+    fields = [st.target.id for st in cfg.body if isinstance(st, ast.AnnAssign) and isinstance(st.target, ast.Name)]
+    probs = []
+    if not is_dc:
+        probs.append((cfg.lineno, "Config is not a dataclass any more: the rules about its generated constructor do not apply"))
+    for m in cfg.body:
+        if not isinstance(m, ast.FunctionDef):
+            continue
+        if m.name in ("__init__", "__new__", "__setattr__", "__getattribute__", "__getattr__", "__set__"):
+            probs.append((m.lineno, f"Config defines {m.name}"))
+        if m.name in fields:
+            probs.append((m.lineno, f"Config.{m.name} shadows the field of that name"))
+        for n in ast.walk(m):
+            if isinstance(n, ast.Call):
+                f = ast.unparse(n.func)
+                if f in ("object.__setattr__", "setattr", "super().__setattr__", "object.__delattr__", "delattr") or f.endswith(".__dict__.update") \
+                        or f.endswith(".__dict__.__setitem__"):
+                    what = ast.unparse(n.args[1]) if len(n.args) > 1 else "?"
+                    probs.append((n.lineno, f"Config.{m.name} rewrites field {what} (`{ast.unparse(n)[:70]}`)"))
+            if isinstance(n, (ast.Assign, ast.AugAssign)):
+                for t in (n.targets if isinstance(n, ast.Assign) else [n.target]):
+                    if "__dict__" in ast.unparse(t) or (isinstance(t, ast.Attribute) and isinstance(t.value, ast.Name) and t.value.id == "self"):
+                        probs.append((n.lineno, f"Config.{m.name} assigns `{ast.unparse(t)[:50]}`"))
+    ctx.oblige(rule, f"{F}:Config", f"Config keeps its {len(fields)} fields as given ({len(probs)} rewriting construct(s))", not probs, file=F, func="Config",
+               construct="config fields verbatim" + (": " + probs[0][1][:60] if probs else ""),
+               msg="; ".join(f"line {ln}: {m_}" for ln, m_ in probs) + ": a configuration value the caller (set_params, a grid candidate, compile) supplies "
+                   "is stored as a different value", line=probs[0][0] if probs else None)
 
 
 def fit_param_integrity(ctx: core.Ctx, cls: ast.ClassDef, fit: ast.FunctionDef, rule: str):
